@@ -13,7 +13,7 @@ from ..engine import Outcome, Prop, compare
 from ..render import COMMA, END, I, K, L, LP, N, RP, T, V, plist, render_script
 
 KEY_POOL = [(None, "t"), ("a", "t"), ("b", "t"), ("a", "u"), (None, "u"), ("S1", "Orders"), ("b", "Orders"), (None, "Orders")]
-BASE_COLS = [("id", "int", None), ("name", "varchar", [10]), ("Code", "int", None), ("amt", "decimal", [10, 2]), ("note_x", "text", None)]
+BASE_COLS = [("id", "int", None), ("name", "varchar", [10]), ("Code", "int", None), ("amt", "decimal", [10, 2]), ("code_id", "text", None)]  # a name that contains two other column names
 # keyword-shaped column names: legal in CREATE TABLE and in index column lists (C06); ALTER operands reject many keywords, so
 # these columns are only ever named by CREATE INDEX statements
 KW_COLS = [("type", "int", None), ("comment", "text", None), ("default", "int", None), ("tag", "int", None)]
@@ -101,7 +101,9 @@ def case_strategy(draw, max_ops):
             pool = names + kwcols[(sch, tn)]
             k = draw(st.integers(1, min(3, len(pool))))
             cs = list(draw(st.permutations(pool)))[:k]
-            op["name"] = "ix%d" % j
+            # index names may repeat on *another* table (same-named tables in two schemas usually follow one naming convention)
+            prior = [o["name"] for o in ops if o["kind"] == "index" and o["t"] != ti]
+            op["name"] = draw(st.sampled_from(prior)) if prior and draw(st.integers(0, 2)) == 0 else "ix%d" % j
             op["unique"] = draw(st.booleans())
             op["clustered"] = (not op["unique"]) and draw(st.integers(0, 2)) == 0
             op["cols"] = [[c, draw(st.sampled_from([None, "ASC", "DESC"])), draw(st.sampled_from([None, None, "FIRST", "LAST"]))] for c in cs]
